@@ -79,6 +79,9 @@ type Contract struct {
 	Trusted  bool
 	Replay   string
 	OnlyProps []string // the contract stands in for the function only when one of these properties is checked
+	Opaque   []string // callee patterns treated as opaque pure calls while verifying this function
+	SafetyProps []string // when set: safety obligations only for these properties
+	TrustFrame bool
 	Closed   bool // every call site in the module must be in verified code (preconditions are not input assumptions)
 	Sweep    bool // synthesised by a sweep directive: callers keep inlining the function
 }
@@ -103,6 +106,8 @@ type OnCall struct {
 		Name string
 		Expr Clause
 	}
+	Deep   bool
+	Except []string // for wildcard callees (Type.*): method names that are not matched
 	Assumes []Clause // trusted facts about an external callee stated over ghost state (listed as assumptions)
 	Checks []Clause // obligations at the call (arguments arg0.., locals, ghosts in scope)
 }
@@ -553,6 +558,17 @@ func (cs *ContractSet) LoadFile(file string) error {
 				cur.Assigns = []string{"nothing"}
 			case "only":
 				cur.OnlyProps = append(cur.OnlyProps, strings.Fields(rest)...)
+			case "opaque":
+				// opaque Type.*, pkg.Func: callees not to be inlined while this
+				// function is verified (result unconstrained, no visible effect)
+				for _, pat := range strings.Split(rest, ",") {
+					if pat = strings.TrimSpace(pat); pat != "" {
+						cur.Opaque = append(cur.Opaque, pat)
+					}
+				}
+			case "trustframe":
+				// the assigns clause is used at call sites but not checked here
+				cur.TrustFrame = true
 			case "closed":
 				cur.Closed = true
 			case "inline":
@@ -647,9 +663,12 @@ func (cs *ContractSet) LoadFile(file string) error {
 				cur.Knowns = append(cur.Knowns, ks)
 			case "replay":
 				cur.Replay = rest
-			case "oncall":
+			case "oncall", "deepcall":
 				// oncall Callee[#n] [when EXPR] do a = e; b = e
-				oc := OnCall{}
+				// deepcall: the rule also fires for calls made by inlined callees
+				// (its expressions then see the arguments, the ghosts and the
+				// parameters of the function under contract, not the callee's locals)
+				oc := OnCall{Deep: word == "deepcall"}
 				k := strings.Index(rest, " do ")
 				isCheck := false
 				isAssume := false
@@ -682,6 +701,14 @@ func (cs *ContractSet) LoadFile(file string) error {
 				if h := strings.Index(head, "#"); h >= 0 {
 					oc.Ord, _ = strconv.Atoi(head[h+1:])
 					head = head[:h]
+				}
+				if e := strings.Index(head, " except "); e >= 0 {
+					for _, n := range strings.Split(head[e+8:], ",") {
+						if n = strings.TrimSpace(n); n != "" {
+							oc.Except = append(oc.Except, n)
+						}
+					}
+					head = strings.TrimSpace(head[:e])
 				}
 				oc.Callee = head
 				if isCheck || isAssume {
@@ -879,6 +906,10 @@ func (cs *ContractSet) applySweeps() {
 				if !hasProp(c.Props, p) {
 					c.Props = append(c.Props, p)
 				}
+			}
+			if !c.Safety {
+				// safety obligations only while the sweep's properties are checked
+				c.SafetyProps = append(c.SafetyProps, sw.Props...)
 			}
 			c.Safety = true
 			continue
